@@ -26,7 +26,12 @@ def gen_job(ctx, scope, stride=1, offset=0, le=True, name=None, with_model=True,
     return dict(module="CompileGen", cfg=cfg, name="Gen_" + (name or scope), workers=1, timeout=3000, java_opts="-Xss512m"), out
 
 
-def replay(ctx, cases, concs=3, expand=3, tag="", jail=False, block=False):
+# scopes that are about operands and argument words: also replayed by a 32-bit build of the harness (a linux/386 program compiles the same
+# programs - C19 - and what a 64-bit operand compiles to must not depend on the word size of the program that compiles it)
+SCOPES_386 = {"single", "boundary", "guarded", "allops", "pairs", "eqruns", "mergeops", "rich", "longops", "klong", "actions"}
+
+
+def replay(ctx, cases, concs=3, expand=3, tag="", jail=False, block=False, goarch=None):
     """jail: the replaying process changes its root to an empty directory before its first compilation (no /proc, /sys, /etc): what a
     policy compiles to is a function of the policy, not of what the process can find out about the machine."""
     bindir = ctx.harness()
@@ -40,11 +45,17 @@ def replay(ctx, cases, concs=3, expand=3, tag="", jail=False, block=False):
     if block and os.uname().machine == "x86_64":
         # ... nor of what the kernel lets the process do: seccomp(2) itself is answered with ENOSYS (a container profile, an old kernel)
         extra.append("-blockseccomp")
-    rc, out, err = ctx.run([os.path.join(bindir, "polreplay"), "-in", cases, "-failures", fails, "-summary", summ,
+    binary = os.path.join(bindir, "polreplay")
+    if goarch:
+        binary = ctx.harness_for(goarch, "polreplay")
+        extra = [x for x in extra if x != "-blockseccomp"]
+    rc, out, err = ctx.run([binary, "-in", cases, "-failures", fails, "-summary", summ,
                             "-seed", str(ctx.seed), "-concs", str(concs), "-expand", str(expand)] + extra, timeout=3000)
     if rc != 0:
-        raise vlib.Machinery("polreplay failed: " + err[-2000:])
-    return json.load(open(summ)), vlib.read_ndjson(fails)
+        raise vlib.Machinery("polreplay%s failed: %s" % (" (linux/%s build)" % goarch if goarch else "", err[-2000:]))
+    s = json.load(open(summ))
+    s["build_target"] = "linux/" + (goarch or "amd64")
+    return s, vlib.read_ndjson(fails)
 
 
 def account(ctx, summary, failures, mine, decision_owner):
@@ -56,7 +67,7 @@ def account(ctx, summary, failures, mine, decision_owner):
     cov["evaluations"] += summary["events"]
     cov["distinct_nontrivial"] += summary["distinct_nontrivial"]
     cov["traces_validated_against_impl"] += summary["compilations"]
-    cov.setdefault("replayed", []).append({k: summary[k] for k in ("scope", "cases", "compilations", "accepted", "rejected", "events", "drift", "programs_over_255", "xnet_crosschecked", "dump_checked", "retargeted_values", "host_order_compilations", "whole_table_compilations", "compilations_under_PER_LINUX32", "policy_values_compiled_before_with_another_content", "process_without_a_file_system", "process_whose_seccomp_call_is_answered_ENOSYS")})
+    cov.setdefault("replayed", []).append({k: summary[k] for k in ("scope", "cases", "compilations", "accepted", "rejected", "events", "drift", "programs_over_255", "xnet_crosschecked", "dump_checked", "retargeted_values", "host_order_compilations", "whole_table_compilations", "compilations_under_PER_LINUX32", "policy_values_compiled_before_with_another_content", "process_without_a_file_system", "process_whose_seccomp_call_is_answered_ENOSYS", "build_target")})
     for s in summary["samples"] or []:
         ctx.sample(s)
     for d in summary["drift_sample"] or []:
@@ -113,3 +124,9 @@ def run_family(ctx, plan, mine, decision_owner):
                       jail=p.get("jail", p["scope"] in ("actions", "kactions") or (i + ctx.seed) % 3 == 1),
                       block=p.get("block", p["scope"] in ("actions", "kactions") or (i + ctx.seed) % 3 == 2))
         account(ctx, s, f, mine, decision_owner)
+        if p["scope"] in SCOPES_386 and os.uname().machine == "x86_64" and p.get("build386", True):
+            s, f = replay(ctx, out, concs=min(2, p.get("concs", 3)), expand=min(2, p.get("expand", 3)) or 1, tag=os.path.basename(out) + ".386", goarch="386")
+            for x in f:
+                x["build_target"] = "linux/386"
+                x["why"] = "(harness built for linux/386) " + x["why"]
+            account(ctx, s, f, mine, decision_owner)
